@@ -30,13 +30,20 @@ CHECKS = {
          "3.C17", "Decides that every code write of every install/restore path is followed before return by the target's icache primitive with a covering range and no later write to that range, on every OS configuration."),
 }
 
-NOT_YET = {
- "C06": "macro-instantiation harness not wired into a registered check yet at this commit",
- "C07": "macro-instantiation harness not wired into a registered check yet at this commit",
- "C08": "macro-instantiation harness not wired into a registered check yet at this commit",
- "C09": "macro-instantiation harness not wired into a registered check yet at this commit",
- "C14": "macro-instantiation harness not wired into a registered check yet at this commit",
-}
+NOT_YET = {}
+
+CHECKS.update({
+ "C06": ("generated per-arm instantiations type-checked by rustc + abstract interpretation of each generated fake's MIR (marker events, guard intervals)",
+         "3.C06", "Decides on every `times` arm of fake! (enumerated from rustc's parse) that admission is one atomic fetch_add whose previous value is tested so that admitted <=> prev in [0,N-1], over-budget and non-matching calls diverge before any user piece, the verifier shares counter and budget, the verifier's destructor panics iff counts differ and not unwinding with both numbers, and will_execute stores the verifier before installing. Concurrency is discharged by the single RMW (atomics trusted)."),
+ "C07": ("must-pass-through rule over abstract traces of the installation entry point + who-writes enumeration of the counter",
+         "3.C07", "Decides that every installation of a counted fake passes through a reset of the verifier's own counter before its first effect (or every arm resets its static), and that the counter has no other writer."),
+ "C08": ("compile witnesses per macro arm (rustc accept/reject, meta_variable_misuse lint) + marker-order rules on the MIR of each generated fake",
+         "3.C08", "Decides for every fake! arm found in the source at check time that a well-typed use compiles, expands from its own arm, obeys the common meaning (when first / rejected call effect-free / assign before result / returns evaluated per call with the arguments / budget), generates the declared fn kind and the right verifier kind."),
+ "C09": ("gate-shape rule on abstract traces of the checked install roots + recorded-type rule on every macro arm's MIR + compile-fail witness with twin",
+         "3.C09", "Decides that the checked installs are on the equal edge of a whole-string equality between recorded and expected signature placed before any effect, that every checked macro arm records type_name of the declared fn-pointer type and the matching pointer, that unchecked forms use the empty string on both sides, and that a wrong async output type is a compile error (E0271). type_name injectivity on fn-pointer types is assumed."),
+ "C14": ("resolved-callee rule (reified <F as Future>::poll) + return-value rule on the generated poll fn's MIR + compile-fail witness",
+         "3.C14", "Decides that exactly `<F as Future>::poll` of the pinned future's type is what gets patched, that the generated replacement returns Poll::Ready(freshly evaluated value) on its only path, and that output-type agreement is enforced by rustc; isolation/restoration are C03/C02."),
+})
 
 
 def main():
